@@ -13,7 +13,7 @@ import (
 func init() {
 	register("C17", &ruleSet{
 		run:    runC17,
-		floors: map[string]int{"O1": 30, "O5": 1, "O6": 1, "O7": 1},
+		floors: map[string]int{"O1": 30, "O5": 1, "O6": 1, "O7": 1, "O8": 2},
 		explain: "Lockset discipline, sufficient for data-race freedom under the stated assumptions: for every struct type of the shared public objects (limits, " +
 			"strategies, partitions, limiters, listeners, measurements, registries and the objects they own) and every field - or what a pointer/map/slice/list field " +
 			"refers to - that is written anywhere outside a constructor, every access in the module either goes through sync/atomic, or holds one common mutex of the " +
@@ -43,6 +43,7 @@ func runC17(p *Prog, l *Ledger) {
 	l.Rule("O1", "every field (or referent of a pointer/map/slice/list field) written after construction is accessed only atomically, or under one common mutex of its object (exclusive for writes), or through a verified owner holding the owner's mutex")
 	l.Rule("O3", "ownership: an owner-guarded instance is reachable only through an unexported field that never escapes, and every method call through that field holds the owner's mutex (exclusively when the callee writes)")
 	l.Rule("O5", "package-level variables are written only during package initialisation")
+	l.Rule("O8", "a sync.WaitGroup held in a shared object is not reused while a Wait is still in progress: every Add and every Wait on it hold one common mutex exclusively (an Add that starts the next round concurrently with a Wait of the previous one is a reported race and can panic the runtime: 'WaitGroup is reused before previous Wait has returned')")
 	l.Rule("O6", "instances do not share mutable state through package-level variables: no field of a concurrent object is initialised (directly, or through a constructor argument at a call site in the module) from a package-level variable that refers to mutable memory - each instance's lock only protects its own")
 	l.Rule("O7", "a type that holds a sync mutex by value is used through pointers: all its methods have pointer receivers (a value receiver copies the lock and reads every field without it)")
 	l.NotCovered = []string{"structs copied after first use", "user callbacks (predicates, lookup functions, measurement Update operations, metric suppliers) are assumed safe themselves", "third-party types (container/list, go-metrics, statsd client) are used under our lock or are documented concurrency-safe", "the logical race between snapshot and re-lock in DefaultListener (not a data race)", "deadlocks"}
@@ -273,6 +274,8 @@ func runC17(p *Prog, l *Ledger) {
 	// ---- O6 / O7
 	c17SharedGlobals(p, l, inScope)
 	c17PointerReceivers(p, l, inScope)
+	// ---- O8
+	c17WaitGroups(p, l, locks)
 
 	// ---- O3 ownership relations actually relied upon
 	var rels []string
@@ -877,4 +880,90 @@ func c17TypedLocks(a *c17Access) map[string]bool {
 		}
 	}
 	return out
+}
+
+// c17WaitGroups: for every struct field of type sync.WaitGroup in the module, the Add and Wait call sites on it share one
+// exclusively held mutex (identified by its field: package.Type.field).
+func c17WaitGroups(p *Prog, l *Ledger, locks *LockInfo) {
+	type site struct {
+		fn   *ssa.Function
+		ins  ssa.Instruction
+		what string
+	}
+	sites := map[string][]site{}
+	for _, f := range p.Funcs {
+		if !p.InModule(f) || strings.HasPrefix(p.PkgOf(f), "examples") {
+			continue
+		}
+		allInstrs(f, func(ins ssa.Instruction) {
+			c := p.CallOf(ins)
+			if c == nil || c.Recv == nil || !c.Is("(*sync.WaitGroup).Add", "(*sync.WaitGroup).Wait") {
+				return
+			}
+			fa, ok := strip(c.Recv, false).(*ssa.FieldAddr)
+			if !ok {
+				return
+			}
+			fr, _, ok := fieldOf(fa)
+			if !ok || fr.Type == nil || !p.InPkgType(fr.Type) {
+				return
+			}
+			what := "Wait"
+			if c.Is("(*sync.WaitGroup).Add") {
+				what = "Add"
+			}
+			k := p.FieldKey(fr)
+			sites[k] = append(sites[k], site{f, ins, what})
+		})
+	}
+	var keys []string
+	for k := range sites {
+		keys = append(keys, k)
+	}
+	sort.Strings(keys)
+	for _, k := range keys {
+		ss := sites[k]
+		nAdd, nWait := 0, 0
+		var common map[string]bool
+		for i, s := range ss {
+			if s.what == "Add" {
+				nAdd++
+			} else {
+				nWait++
+			}
+			ids := c17TypedLocks(&c17Access{fn: s.fn, held: locks.Held(s.ins)})
+			mine := map[string]bool{}
+			for id, ex := range ids {
+				if ex {
+					mine[id] = true
+				}
+			}
+			if i == 0 {
+				common = mine
+			} else {
+				for id := range common {
+					if !mine[id] {
+						delete(common, id)
+					}
+				}
+			}
+		}
+		if nAdd == 0 || nWait == 0 {
+			continue
+		}
+		var bad []string
+		if len(common) == 0 {
+			for _, s := range ss {
+				bad = append(bad, fmt.Sprintf("%s in %s: %s (locks held: %s)", p.At(s.ins), p.Key(s.fn), s.what, locks.Held(s.ins)))
+			}
+			sort.Strings(bad)
+		}
+		var ids []string
+		for id := range common {
+			ids = append(ids, id)
+		}
+		sort.Strings(ids)
+		l.Check(len(bad) == 0, "O8", k, p.At(ss[0].ins), fmt.Sprintf("%d Add and %d Wait site(s), all holding %s exclusively", nAdd, nWait, strings.Join(ids, ", ")),
+			"Add and Wait on this WaitGroup can run concurrently: the next round's Add can overlap a Wait of the previous one (a reported race; the runtime panics with 'WaitGroup is reused before previous Wait has returned')", bad...)
+	}
 }
